@@ -564,7 +564,14 @@ impl<'a> Peripheral<'a> {
             }
             PeripheralState::DataExchange | PeripheralState::PreDataExchange => {
                 if self.diag_requested {
-                    if self.handle_diagnostics_response(fdl, &telegram).is_some() {
+                    if let Some(diag) = self.handle_diagnostics_response(fdl, &telegram) {
+                        if diag.flags.contains(DiagnosticFlags::PARAMETER_REQUIRED) {
+                            log::warn!(
+                                "Peripheral #{} requests new parameters, restarting setup...",
+                                self.address
+                            );
+                            self.state = PeripheralState::WaitForParam;
+                        }
                         self.retry_count = 0;
                         self.diag_needed = false;
                         Some(PeripheralEvent::Diagnostics)
